@@ -7,7 +7,7 @@ cd "$(dirname "$0")"
 mkdir -p ml/gen build/ml evidence replays
 cd coq
 coq_makefile -f _CoqProject -o Makefile > /dev/null
-timeout 5400 make -k -j16 2>&1 | grep -v "^Closed under\|^COQC\|^COQDEP" | tail -15
+( ulimit -v 14000000; timeout 5400 make -k -j16 ) 2>&1 | grep -v "^Closed under\|^COQC\|^COQDEP" | tail -15
 cd ..
 python3 - <<'PY'
 import sys, os
